@@ -1176,13 +1176,23 @@ class Context:
             MemoryLimitError: If memory limit is exceeded
             TimeLimitError: If time limit is exceeded
         """
-        # Parse the code
-        parser = Parser(code)
-        ast = parser.parse()
+        try:
+            # Parse the code
+            parser = Parser(code)
+            ast = parser.parse()
 
-        # Compile to bytecode
-        compiler = Compiler()
-        compiled = compiler.compile(ast)
+            # Compile to bytecode
+            compiler = Compiler()
+            compiled = compiler.compile(ast)
+        except RecursionError:
+            # The parser and compiler recurse on nesting (and on long operator
+            # chains): refuse instead of leaking the host's stack overflow.
+            from .errors import JSSyntaxError
+
+            raise JSSyntaxError(
+                "Program too deeply nested: expression or statement nesting "
+                "exceeds what the parser/compiler supports"
+            )
 
         # Execute
         vm = VM(memory_limit=self.memory_limit, time_limit=self.time_limit)
